@@ -1889,6 +1889,8 @@ def gen_data_case(rng, i, wu_p=0.25, raw=0.12):
         opts['safecopy'] = True            # the file must be the same whether or not the caller's system is kept unwrapped
     if rng.random() < 0.08:
         opts['return_info'] = False
+    if rng.random() < 0.1:
+        add_namesake(rng, d)
     c = {'kind': 'data', 'd': d, 'style': style, 'units': units, 'ff': ff, 'natypes': natypes, 'fname': fname,
          'opts': opts, 'pre': pre, 'wu': gen_wu(rng, wu_p)}
     if rng.random() < 0.15:
@@ -1898,6 +1900,18 @@ def gen_data_case(rng, i, wu_p=0.25, raw=0.12):
         c['args'] = {'units': None if units == 'metal' else units, 'style': None if style == 'atomic' else style}
     c['d'] = scale_desc(c['d'], c['wu'])
     return c
+
+
+NAMESAKES = ['q', 'x', 'y', 'z', 'mol', 'id', 'type', 'vx', 'mux', 'density', 'xu', 'radius']
+
+
+def add_namesake(rng, d):
+    """a per-atom property that is NOT written (no atom_style knows it, it is not among the selected columns) but is
+    called like a column of the file (q next to charge, x next to pos): it must stay out of the file."""
+    name = rng.choice([n for n in NAMESAKES if n not in d['props']] or ['q'])
+    if name not in d['props']:
+        d['props'][name] = (False, (), [[float(rng.randint(50, 90))] for _ in d['atype']])
+    return name
 
 
 def add_potential(rng, c, force_explicit=False):
@@ -1980,6 +1994,8 @@ def gen_dump_case(rng, i, wu_p=0.25, raw=0.12, specials=0.0):
             + [p for p in d['props'] if p != 'atom_id' and rng.random() < 0.7]
         if rng.random() < 0.5:
             rng.shuffle(prop_names)               # the columns come in the order they are asked for, id anywhere
+        if rng.random() < 0.2:
+            add_namesake(rng, d)                  # held by the system, not asked for
     explicit = None
     if prop_names is not None and rng.random() < 0.3:
         explicit = rng.choice(['prop_info', 'lists'])
@@ -2002,6 +2018,14 @@ def gen_poscar_case(rng, i, raw=0.12):
         scale = rng.choice([1.0, 2.0, 0.5, 4.0, 0.25, 1.0])
     else:
         scale = rng.choice([1.0, rng.uniform(0.3, 6.0), 3.615, 0.1])
+    r = rng.random()
+    if r < 0.06:
+        # the universal scaling factor is a multiplier only when it is positive (a negative value on that line is the
+        # cell volume): zero and negative factors must be refused, not written
+        scale = rng.choice([-2.5, -1.0, 0.0, -64.0, -0.0, -rng.uniform(0.1, 9.0)])
+    elif r < 0.12:
+        scale = rng.choice([2.0 ** -20, 2.0 ** 20, 2.0 ** -30, 2.0 ** 12]) if regime == 'grid' else \
+            rng.choice([1e-8, 1e7, rng.uniform(1, 9) * 1e-5, rng.uniform(1, 9) * 1e4])        # tiny / huge
     # symbols: passed as a list, as a bare string (one type), or carried by the system (complete -> written,
     # partly None -> no symbols line); optionally more symbols than the largest type in use (unused last types:
     # the counts line must then have as many entries as the symbols line has names)
@@ -2031,6 +2055,8 @@ def gen_poscar_case(rng, i, raw=0.12):
         else:
             coordstyle = rng.choice(['direct\n', 'cartesian\nx'])
     ff = rng.choice(['e13', 'e13', 'e8', 'e16', 'f13', 'f8', 'e5'])
+    if not 1e-2 < abs(scale) < 1e3:
+        ff = rng.choice(['e13', 'e8', 'e16'])          # a fixed-point format cannot resolve a factor of 1e-8 (or the rows / 1e7)
     if rng.random() < raw:
         ff = raw_format(rng, ff)
     out, pre = gen_channel(rng, 'POSCAR')
@@ -2150,6 +2176,11 @@ def model_line(c, resolved=None):
 def one_line_strings(c):
     """POSCAR: comment and mode line are single lines; the writer must refuse a line break inside them."""
     return c['kind'] != 'poscar' or ('\n' not in c['header'] and '\n' not in c['coordstyle'])
+
+
+def expressible(c):
+    """POSCAR: only a positive universal scaling factor is a multiplier."""
+    return c['kind'] != 'poscar' or c['scale'] > 0
 
 
 def real_call(c):
@@ -2667,7 +2698,7 @@ def should_succeed(c):
     d = c['d']
     V, _O, _P = fr_sys(d)
     if c['kind'] == 'poscar':
-        return True
+        return expressible(c)
     if not is_lammps_norm(V):
         return False
     if c['kind'] == 'data':
@@ -2718,6 +2749,12 @@ def _oracle_case(ctx, c, report):
         if real[0] != 'err:assert':
             report('poscar:line-break', f'a comment / mode line with a line break in it ({c["header"]!r}, {c["coordstyle"]!r}) '
                                         f'is not refused: {real[0]} {real[1][:80]!r}', rp)
+        return
+    if not expressible(c):
+        if real[0] == 'ok':
+            report('poscar:scale', f'box_scale={c["scale"]!r} is written as the universal scaling factor '
+                                   f'({real[1].split(chr(10))[1]!r} on line 2) and used as a multiplier; by the POSCAR rules a '
+                                   'value that is not positive is not one (negative = cell volume)', rp)
         return
     if real[0] != 'ok':
         if should_succeed(c):
